@@ -203,22 +203,28 @@ def _get_common_type_dims(arr_seq: Sequence[ArrayLike | None]) -> tuple[np.dtype
     ndim = None
     dtype = None
 
-    for arr in arr_seq:
-        if arr is None:
-            continue
-        element = np.asarray(arr)
-        if ndim is None:
-            ndim = element.ndim
-            dtype = element.dtype
-        else:
-            ndim = max(element.ndim, ndim)
-            assert dtype is not None  # Set in previous iteration when ndim was None
-            if np.can_cast(dtype, element.dtype):
-                dtype = np.promote_types(dtype, element.dtype)
-            else:
+    elements = [np.asarray(arr) for arr in arr_seq if arr is not None]
+    if len(elements) > 0:
+        ndim = max(element.ndim for element in elements)
+        dtypes = [element.dtype for element in elements]
+        # Strings are only compatible with strings (numpy would turn numbers into strings)
+        kinds = {element_dtype.kind for element_dtype in dtypes}
+        if len(kinds) > 1 and not kinds.isdisjoint({"U", "S"}):
+            raise ValueError(
+                f"All elements must have compatible dtypes. Cannot combine dtypes {dtypes}."
+            )
+        # Promote all dtypes at once: pairwise promotion depends on the element order
+        try:
+            dtype = np.result_type(*dtypes)
+        except TypeError as e:
+            raise ValueError(
+                f"All elements must have compatible dtypes. Cannot find a common dtype for {dtypes}."
+            ) from e
+        for element_dtype in dtypes:
+            if not np.can_cast(element_dtype, dtype):
                 raise ValueError(
-                    "All elements must have compatible dtypes. Cannot"
-                    f"cast {dtype} and {element.dtype}."
+                    "All elements must have compatible dtypes. Cannot "
+                    f"cast {element_dtype} to {dtype}."
                 )
 
     if dtype is None or ndim is None:
